@@ -782,6 +782,22 @@ class Emitter:
         kind = s[0]
         if kind == "empty":
             return cont(scope)
+        w = self.write_stmt(s) if kind in ("expr", "assign") else None
+        if w is not None:
+            if w[0] == "one":
+                return f"let out := out ++ [({w[1]}, {w[2]})]\n{cont(scope)}"
+            return f"let out := out ++ {w[1]}\n{cont(scope)}"
+        if kind == "for" and self.cfg.get("writes"):
+            key = self.rust_text(s[2])
+            body_sts = [x for x in s[3][1] if x[0] != "empty"]
+            if key in self.cfg.get("iters", {}) and len(body_sts) == 1 and s[1][0] == "pvar":
+                bw = self.write_stmt(body_sts[0])
+                if bw is not None and bw[0] == "one":
+                    var = self.v(s[1][1])
+                    return (f"let out := out ++ ({self.cfg['iters'][key]}).map (fun {var} => ({bw[1]}, {bw[2]}))\n"
+                            f"{cont(scope)}")
+        if kind == "let" and self.cfg.get("writes") and s[1] == ("pvar", "written"):
+            return cont(scope)
         if kind == "let":
             _, pat, init, mut, ty, els = s
             if els is not None:
@@ -882,6 +898,34 @@ class Emitter:
         if kind == "rawlet":
             return f"let {s[1]} := {s[2]}\n{cont(scope)}"
         raise Untranslatable("statement kind " + kind)
+
+    def write_of(self, e):
+        """("one", value, width) / ("list", text) if `e` is a write to the serializer, else None"""
+        if not self.cfg.get("writes"):
+            return None
+        if e[0] == "try":
+            e = e[1]
+        ser = self.cfg.get("ser", "ser")
+        if e[0] == "mcall" and e[1][0] == "path" and e[1][1] == [ser]:
+            m = re.fullmatch(r"write_u(8|16|32|64)", e[2])
+            if m and len(e[3]) == 1:
+                return ("one", self.ex(e[3][0]), str(int(m.group(1)) // 8))
+            if e[2] == "write_usized" and len(e[3]) == 2:
+                return ("one", self.ex(e[3][0]), self.ex(e[3][1]))
+        if e[0] == "mcall" and e[2] == "serialize" and len(e[3]) == 1 and e[3][0][0] == "path" and e[3][0][1] == [ser]:
+            key = self.rust_text(e[1])
+            if key in self.cfg.get("serializes", {}):
+                return ("list", self.cfg["serializes"][key])
+            raise Untranslatable("serialize of an unmapped value: " + key)
+        return None
+
+    def write_stmt(self, s):
+        """the write performed by statement `s` (expression statement or `written += …`), or None"""
+        if s[0] == "expr" and s[2]:
+            return self.write_of(s[1])
+        if s[0] == "assign" and s[1] == "+=" and s[2][0] == "path" and s[2][1] == ["written"]:
+            return self.write_of(s[3])
+        return None
 
     def loop(self, c, body, rest, k, scope):
         if not self.has_loop:
@@ -1015,7 +1059,7 @@ def translate(name, body_text, cfg):
     """Lean text of `def <name> …` (with its loop functions) for the Rust function body `body_text`."""
     ast = parse_body(body_text)
     em = Emitter(name, cfg)
-    em.has_loop = contains_loop(ast)
+    em.has_loop = contains_loop(ast) and not cfg.get("no_loops")
     params = cfg["params"]
     sig = " ".join(f"({p} : {t})" for p, t in params)
     body = em.stmts(ast[1], None, list(cfg.get("prelude_scope", [])))
